@@ -434,8 +434,10 @@ func (f *fixture) cleanup(clients []*cli) {
 	}
 	waitFor(waitBound, func() bool {
 		c := count()
-		return c.starts == 0 && c.startPending == 0 && c.handlers == 0 && c.readers == 0 && c.pfreaders == 0
+		return c.startPending == 0 && c.handlers == 0 && c.readers == 0 && c.pfreaders == 0
 	})
+	// an accept loop that survives the kill of every listed proxy is unreachable (see leakedStarts)
+	waitFor(150*time.Millisecond, func() bool { return count().starts == 0 })
 }
 
 func unstick(m *sync.Mutex) {
